@@ -846,7 +846,9 @@ class SimplicialComplex(Hypergraph):
         )
         cp._net_attr = deepcopy(self._net_attr)
 
-        cp._edge_uid = copy(self._edge_uid)
+        # faces added while re-closing a source that is not downward closed have
+        # consumed IDs of the copy's own counter: never fall back behind them
+        cp._edge_uid = count(max(next(copy(self._edge_uid)), next(cp._edge_uid)))
 
         return cp
 
